@@ -478,7 +478,7 @@ def run_cfg_rest(ctx, p, cfg):
                 r.require(okn, "%s:pads-to_fill-times" % adt.rsplit("::", 1)[-1], fn=g, detail="the padding loop runs self.to_fill times (trip count %s)" % (show(te, 4) if te else None))
             if adt == RIGHT:
                 rep = [c for c in g.calls() if c.callee in ("std::io::Write::write_all", "encode::Write::set_style")]
-                r.require(len(rep) == 2 and wf and all(not g.can_reach(c.block, wf[0].block) and g.can_reach(wf[0].block, c.block) for c in rep), "RightAlignWriter:pad-before-content", fn=g,
+                r.require(len(rep) >= 1 and wf and all(not g.can_reach(c.block, wf[0].block) and g.can_reach(wf[0].block, c.block) for c in rep), "RightAlignWriter:pad-before-content", fn=g,
                           detail="padding loop precedes the replay of the buffered output")
             else:
                 oth = [c.callee for c in g.calls() if c.callee in ("std::io::Write::write_all", "std::io::Write::write")]
